@@ -6,7 +6,6 @@
 ############################################################################
 
 import logging
-import math
 from enum import Enum
 
 from .isoform_assignment import ReadAssignmentType
@@ -196,7 +195,7 @@ class MultimapResolver:
 
     @staticmethod
     def select_noninformative(assignment_list, assignment_indices):
-        # triplets (overlap_length, genomic_region_start, index)
+        # triplets (overlap_length, tie_break_key, index)
         overlap_index_list = []
         max_overlap_len = 0
 
@@ -204,14 +203,18 @@ class MultimapResolver:
             assignment = assignment_list[i]
             overlap_len = intersection_len(assignment.genomic_region, (assignment.start, assignment.end))
             max_overlap_len = max(overlap_len, max_overlap_len)
-            overlap_index_list.append((overlap_len, assignment.genomic_region[0], i))
+            # lowest region start first; remaining ties are broken by the fields that identify an alignment
+            # (see BasicReadAssignment.__eq__), so that the choice does not depend on the order of the list
+            tie_break_key = (assignment.genomic_region[0], assignment.chr_id, assignment.start, assignment.end,
+                             assignment.isoforms)
+            overlap_index_list.append((overlap_len, tie_break_key, i))
 
         # select assignment with the best overlap with genic region and lowest region start (for reproducibility)
-        min_region_start = math.inf
+        min_key = None
         best_assignment = -1
         for info in overlap_index_list:
-            if info[0] == max_overlap_len and info[1] < min_region_start:
-                min_region_start = info[1]
+            if info[0] == max_overlap_len and (min_key is None or info[1] < min_key):
+                min_key = info[1]
                 best_assignment = info[2]
 
         assert best_assignment != -1
